@@ -334,6 +334,9 @@ pub enum Form {
     TupleString,
     /// CustomClaim::try_from((&str, <native Rust value #n>)) - see `native_json`
     Native(u8),
+    /// an application-defined `impl PasetoClaim` (not one of the crate's claim types) whose serialisation is
+    /// a one-member object named `exp` (i.e. NOT named like the claim key); `value` is the member's value
+    ForeignOneField,
 }
 
 #[derive(Clone, Debug, PartialEq, Serialize, Deserialize)]
@@ -352,6 +355,7 @@ impl ClaimSpec {
         match self.form {
             Form::KeyOnly => Value::String(String::new()),
             Form::Native(n) => native_json(n),
+            Form::ForeignOneField => serde_json::json!({"exp": self.value.clone()}),
             _ => self.value.clone(),
         }
     }
@@ -397,6 +401,26 @@ pub fn native_json(n: u8) -> Value {
         9 => json!({"k": [1, 2]}),
         // 0.1f32: serialised with the shortest f32 representation, i.e. the JSON number 0.1
         _ => serde_json::from_str("0.1").unwrap(),
+    }
+}
+
+/// a claim type defined by the application, as the public `PasetoClaim` trait allows
+#[derive(Clone)]
+pub struct ForeignClaim {
+    key: String,
+    member_value: Value,
+}
+impl PasetoClaim for ForeignClaim {
+    fn get_key(&self) -> &str {
+        &self.key
+    }
+}
+impl serde::Serialize for ForeignClaim {
+    fn serialize<S: serde::Serializer>(&self, serializer: S) -> Result<S::Ok, S::Error> {
+        use serde::ser::SerializeMap;
+        let mut map = serializer.serialize_map(Some(1))?;
+        map.serialize_entry("exp", &self.member_value)?;
+        map.end()
     }
 }
 
@@ -450,6 +474,10 @@ pub fn put_claim<'a, S: ClaimSink<'a>>(sink: &mut S, spec: &'a ClaimSpec) -> Res
         }
         Form::KeyOnly => {
             sink.put(CustomClaim::try_from(key).map_err(ctor_err)?);
+            Ok(())
+        }
+        Form::ForeignOneField => {
+            sink.put(ForeignClaim { key: spec.key.clone(), member_value: spec.value.clone() });
             Ok(())
         }
         Form::Native(n) => {
@@ -610,7 +638,7 @@ fn register_claim<C: ClaimChecker>(p: &mut C, spec: &ClaimSpec, u: ClaimUse) -> 
     }
     match spec.form {
         Form::KeyOnly => use_claim(p, CustomClaim::try_from(intern(key)).map_err(ctor_err)?, &u),
-        Form::Native(_) => use_claim(p, CustomClaim::try_from((spec.key.clone(), spec.expected_json())).map_err(ctor_err)?, &u),
+        Form::Native(_) | Form::ForeignOneField => use_claim(p, CustomClaim::try_from((spec.key.clone(), spec.expected_json())).map_err(ctor_err)?, &u),
         _ => use_claim(p, CustomClaim::try_from((spec.key.clone(), spec.value.clone())).map_err(ctor_err)?, &u),
     }
     Ok(())
@@ -967,6 +995,35 @@ macro_rules! local_proto {
                 }
             }
 
+            /// other legal call orders on the core builder: footer / assertion set BEFORE the payload, and a
+            /// configured builder whose payload is set again before a second token
+            pub fn core_issue_orders(key: &[u8], seed: &[u8], msg: &str, msg2: &str, footer: Option<&str>, assertion: Option<&str>) -> Vec<Out<String>> {
+                sym_key!($V, key, k, vec![Out::Err(ErrClass::Harness("symmetric key must be 32 bytes".into()))]);
+                let r = guard(|| {
+                    let mut b = Paseto::<$V, Local>::builder();
+                    if let Some(f) = footer {
+                        b.set_footer(Footer::from(f));
+                    }
+                    set_ia!($ia, b, assertion);
+                    b.set_payload(Payload::from(msg));
+                    let first = local_proto!(@encrypt $m, $V, b, k, seed);
+                    b.set_payload(Payload::from(msg2));
+                    let second = local_proto!(@encrypt $m, $V, b, k, seed);
+                    vec![first, second]
+                });
+                match r {
+                    Ok(v) => v
+                        .into_iter()
+                        .map(|o| match o {
+                            Some(Ok(t)) => Out::Ok(t),
+                            Some(Err(e)) => Out::Err(class_core(&e)),
+                            None => Out::Err(ErrClass::Harness("nonce seed of unsupported length".into())),
+                        })
+                        .collect(),
+                    Err(p) => vec![Out::Panic(p)],
+                }
+            }
+
             /// the same `Paseto::builder()` object used for two consecutive try_encrypt calls
             pub fn core_issue_twice(key: &[u8], seed: &[u8], msg: &str, footer: Option<&str>, assertion: Option<&str>) -> Vec<Out<String>> {
                 sym_key!($V, key, k, vec![Out::Err(ErrClass::Harness("symmetric key must be 32 bytes".into()))]);
@@ -1082,6 +1139,33 @@ macro_rules! public_proto {
                 }
             }
 
+            /// other legal call orders on the core builder (see the local variant)
+            pub fn core_issue_orders(key: &[u8], _seed: &[u8], msg: &str, msg2: &str, footer: Option<&str>, assertion: Option<&str>) -> Vec<Out<String>> {
+                priv_key!($kind, $V, key, k, vec![Out::Err(ErrClass::Harness("private key material of the wrong length".into()))]);
+                let r = guard(|| {
+                    let mut b = Paseto::<$V, Public>::builder();
+                    if let Some(f) = footer {
+                        b.set_footer(Footer::from(f));
+                    }
+                    set_ia!($ia, b, assertion);
+                    b.set_payload(Payload::from(msg));
+                    let first = b.try_sign(&k);
+                    b.set_payload(Payload::from(msg2));
+                    let second = b.try_sign(&k);
+                    vec![first, second]
+                });
+                match r {
+                    Ok(v) => v
+                        .into_iter()
+                        .map(|o| match o {
+                            Ok(t) => Out::Ok(t),
+                            Err(e) => Out::Err(class_core(&e)),
+                        })
+                        .collect(),
+                    Err(p) => vec![Out::Panic(p)],
+                }
+            }
+
             /// the same `Paseto::builder()` object used for two consecutive try_sign calls
             pub fn core_issue_twice(key: &[u8], _seed: &[u8], msg: &str, footer: Option<&str>, assertion: Option<&str>) -> Vec<Out<String>> {
                 priv_key!($kind, $V, key, k, vec![Out::Err(ErrClass::Harness("private key material of the wrong length".into()))]);
@@ -1180,6 +1264,11 @@ pub fn core_issue(p: Proto, key: &[u8], seed: &[u8], msg: &str, footer: Option<&
 /// Core layer: `Paseto::<V,P>::try_decrypt/try_verify`. `key` = symmetric / public key material.
 pub fn core_present(p: Proto, key: &[u8], token: &str, footer: Option<&str>, assertion: Option<&str>) -> Out<String> {
     dispatch!(p, core_present(key, token, footer, assertion))
+}
+
+/// Core layer: footer / assertion set before the payload, then the payload replaced for a second token.
+pub fn core_issue_orders(p: Proto, key: &[u8], seed: &[u8], msg: &str, msg2: &str, footer: Option<&str>, assertion: Option<&str>) -> Vec<Out<String>> {
+    dispatch!(p, core_issue_orders(key, seed, msg, msg2, footer, assertion))
 }
 
 /// Core layer: one `Paseto::builder()` object issuing two tokens in a row.
